@@ -468,6 +468,7 @@ const historyPAC = `function FindProxyForURL(url, host) {
   if (url.indexOf(":443") > 0) return "DIRECT";
   if (url.indexOf("/direct") > 0) return "DIRECT";
   if (host == "other.test") return "DIRECT";
+  if (host == "legacy.test") return "SOCKS4 socks.test:1080";
   return "PROXY up.test:8080";
 }`
 
@@ -486,6 +487,8 @@ var historyRequests = []struct {
 	// an intercepted session (mitm-domains = mitm.test only): CONNECT, TLS handshake with the proxy, one request inside
 	// (the request inside is https://mitm.test/in - no port in the URL - so the script's last line applies: through up.test:8080)
 	{"MITM session mitm.test:443", "CONNECT mitm.test:443 HTTP/1.1\r\nHost: mitm.test:443\r\n\r\n", "up.test:8080", "mitm"},
+	// a recognised but unsupported proxy type: the request fails, nobody is contacted - the first time and every time
+	{"GET legacy.test/x (PAC: SOCKS4, unsupported)", "GET http://legacy.test/x HTTP/1.1\r\nHost: legacy.test\r\n\r\n", "", ""},
 }
 
 // historyScenario: one proxy whose PAC script answers by URL (port, path) and host; every sequence of n
@@ -501,7 +504,7 @@ func historyScenario(x *explore.X, n int) {
 		return
 	}
 	servers := map[string]*world.Server{}
-	for _, a := range []string{"up.test:8080", "origin.test:80", "origin.test:8080", "origin.test:443", "origin.test:8443", "b.test:2", "other.test:80", "mitm.test:443"} {
+	for _, a := range []string{"up.test:8080", "origin.test:80", "origin.test:8080", "origin.test:443", "origin.test:8443", "b.test:2", "other.test:80", "mitm.test:443", "socks.test:1080", "legacy.test:80"} {
 		sv, err := w.Server(a)
 		if err != nil {
 			x.Failf("harness/listen", "%s: %v", a, err)
@@ -551,6 +554,23 @@ func historyScenario(x *explore.X, n int) {
 		}
 		ds := w.Net.Dials()[before:]
 		x.Check()
+		if rq.dial == "" {
+			world.Settle(5 * time.Second)
+			ds = w.Net.Dials()[before:]
+			rs := httpwire.ParseResponses(cl.Recv(), []string{"GET"}, false)
+			if len(ds) != 0 {
+				x.Failf("wrong-party-contacted/after-earlier-requests", "request %q after %v: the request must fail without contacting anybody; dials: %v; client got %q", rq.name, names[:len(names)-1], ds, world.Clip(cl.Recv()))
+				return
+			}
+			if len(rs.Msgs) != 1 || rs.Msgs[0].Status < 500 {
+				x.Failf("unsupported-route-not-failed/after-earlier-requests", "request %q after %v: client got %q, want a 5xx", rq.name, names[:len(names)-1], world.Clip(cl.Recv()))
+				return
+			}
+			out = append(out, "failed")
+			cl.Close()
+			world.Settle(100 * time.Millisecond)
+			continue
+		}
 		if len(ds) != 1 || ds[0].Addr != rq.dial || ds[0].Outcome != "connected" {
 			x.Failf("wrong-party-contacted/after-earlier-requests", "request %q after %v: want exactly one connection, to %s; dials: %v", rq.name, names[:len(names)-1], rq.dial, ds)
 			return
@@ -590,7 +610,7 @@ func historyScenario(x *explore.X, n int) {
 
 func TestC05(t *testing.T) {
 	s := explore.NewSuite(t, "C05", "exploration",
-		"configuration = upstream(21: none, static http/https/socks5, PAC scripts returning each result string of the alphabet incl. errors) x direct-domains(4) x proxy-localhost(3) x connect-to rule list(9, incl. chained/swapped rules) x first connection attempt {succeeds, is refused and retried} x target(8: names, explicit port, localhost, IPv6 literal, loopback IP, upper-case and trailing-dot spellings) x kind(plain HTTP, CONNECT, inside MITM); deviation-bounded exploration (D=3 quick, 4 thorough) plus the full product upstream x direct-domains x localhost mode x target x kind (thorough: all 21 upstream selections, quick: 3 of them) and connect-to x upstream x target x kind (both tiers); 99 endpoints listen on the in-memory network, the reference expectRoute names the one that must be dialled and checkHop verifies what it received first (request line form, CONNECT authority, SOCKS5 target, TLS hello); every other endpoint must stay untouched; plus (history) ONE proxy with a PAC script that answers by URL (port, path) and host, and EVERY sequence of 2 (quick) / 4 (thorough) requests out of 8 (absolute-form and origin-form GET, CONNECT, an intercepted session with a request inside, same host with different ports/paths, another host): each request must be routed by its own URL whatever was requested before; non-trivial = route compared")
+		"configuration = upstream(21: none, static http/https/socks5, PAC scripts returning each result string of the alphabet incl. errors) x direct-domains(4) x proxy-localhost(3) x connect-to rule list(9, incl. chained/swapped rules) x first connection attempt {succeeds, is refused and retried} x target(8: names, explicit port, localhost, IPv6 literal, loopback IP, upper-case and trailing-dot spellings) x kind(plain HTTP, CONNECT, inside MITM); deviation-bounded exploration (D=3 quick, 4 thorough) plus the full product upstream x direct-domains x localhost mode x target x kind (thorough: all 21 upstream selections, quick: 3 of them) and connect-to x upstream x target x kind (both tiers); 99 endpoints listen on the in-memory network, the reference expectRoute names the one that must be dialled and checkHop verifies what it received first (request line form, CONNECT authority, SOCKS5 target, TLS hello); every other endpoint must stay untouched; plus (history) ONE proxy with a PAC script that answers by URL (port, path) and host, and EVERY sequence of 2 (quick) / 4 (thorough) requests out of 9 (absolute-form and origin-form GET, CONNECT, an intercepted session with a request inside, same host with different ports/paths, another host, a host for which the script answers an unsupported proxy type): each request must be routed by its own URL whatever was requested before; non-trivial = route compared")
 	s.Assume = []string{"simnet owns every dial of the proxy", "PAC scripts are evaluated by the real pac package (goja)", "the address dialled is observed after the real DialRedirectFunc (connect-to) ran inside forwarder.Dialer"}
 	s.Add(explore.Scenario{Name: "bounded", Remote: true, MaxDev: map[string]int{"quick": 3, "thorough": 4},
 		Run: func(x *explore.X) { world.Run(t, x, func() { scenario(x, 0) }) }})
